@@ -296,6 +296,10 @@ func Replace(fn any, with any)                   { panic("verifrt.Replace: engin
 // Nop is the no-op cancel function the engine hands out for context.WithTimeout/WithCancel.
 func Nop() {}
 
+// HTTPDoError makes the stubbed (*http.Client).Do answer every later call with this error (engine only): the harness
+// supplies what the real client would return, e.g. the *url.Error wrapping a CheckRedirect refusal.
+func HTTPDoError(err error) { panic("verifrt.HTTPDoError: engine only") }
+
 // HTTPRequests returns the requests handed to the stubbed (*http.Client).Do (engine only).
 func HTTPRequests() []*http.Request { panic("verifrt.HTTPRequests: engine only") }
 
